@@ -433,6 +433,12 @@ class _Fold(ast.NodeTransformer):
 
     def visit_BinOp(self, n):
         self.generic_visit(n)
+        # x >> 0, x << 0, x + 0, x | 0 are x
+        if isinstance(n.right, ast.Constant) and type(
+                n.right.value) is int and n.right.value == 0 and isinstance(
+                    n.op, (ast.RShift, ast.LShift, ast.Add, ast.Sub,
+                           ast.BitOr, ast.BitXor)):
+            return n.left
         if isinstance(n.left, ast.Constant) and isinstance(
                 n.right, ast.Constant) and type(n.left.value) is int and \
                 type(n.right.value) is int:
